@@ -46,7 +46,9 @@ import (
 	ibctransferkeeper "github.com/cosmos/ibc-go/v8/modules/apps/transfer/keeper"
 	params2 "github.com/palomachain/paloma/v2/app/params"
 	"github.com/palomachain/paloma/v2/testutil/common"
+	palomamodule "github.com/palomachain/paloma/v2/x/paloma"
 	palomakeeper "github.com/palomachain/paloma/v2/x/paloma/keeper"
+	protov2 "google.golang.org/protobuf/proto"
 	palomatypes "github.com/palomachain/paloma/v2/x/paloma/types"
 	skywaykeeper "github.com/palomachain/paloma/v2/x/skyway/keeper"
 	evmtypes "github.com/palomachain/paloma/v2/x/evm/types"
@@ -67,7 +69,13 @@ type env struct {
 	escrow   sdk.AccAddress
 	flt      *faulter
 	pkey     *storetypes.KVStoreKey // the x/paloma store (wiped by the genesis round trip)
+	dec      palomamodule.VerifyAuthorisedSignatureDecorator
 }
+
+type fakeTx struct{ msgs []sdk.Msg }
+
+func (f fakeTx) GetMsgs() []sdk.Msg                    { return f.msgs }
+func (f fakeTx) GetMsgsV2() ([]protov2.Message, error) { return nil, nil }
 
 // ---- fault-injecting proxies around the three collaborators of the x/paloma keeper ----
 
@@ -240,7 +248,8 @@ func newEnv(start time.Time) *env {
 		authcodec.NewBech32Codec(params2.ValidatorAddressPrefix))
 
 	e := &env{ctx: ctx, cdc: cdc, acc: acc, bank: bk, feegrant: fg, paloma: pal,
-		msg: palomakeeper.NewMsgServerImpl(*pal), skyway: sky, flt: flt, pkey: keys[palomatypes.StoreKey]}
+		msg: palomakeeper.NewMsgServerImpl(*pal), skyway: sky, flt: flt, pkey: keys[palomatypes.StoreKey],
+		dec: palomamodule.NewVerifyAuthorisedSignatureDecorator(fg)}
 	// the module account exists from genesis on a real chain
 	e.escrow = acc.GetModuleAccount(ctx, palomatypes.ModuleName).GetAddress()
 	return e
